@@ -83,12 +83,26 @@ func c19JSONText(c *vrep.Ctx) {
 					msg = fmt.Sprint("panic: ", x)
 				}
 			}()
+			// main() sorts the results (confidence first, then file name) before building the report
+			sort.Sort(lts)
 			jr, err := NewJSONResult(lts, true)
 			if err != nil {
 				msg = "error: " + err.Error()
 				return
 			}
 			var got []string
+			seenFile := map[string]bool{}
+			for i, fc := range jr {
+				if seenFile[fc.Filepath] {
+					msg = fmt.Sprintf("file %s is listed more than once in the JSON report (its matches are split over several entries)", filepath.Base(fc.Filepath))
+					return
+				}
+				seenFile[fc.Filepath] = true
+				if i > 0 && jr[i-1].Filepath > fc.Filepath {
+					msg = "JSON report is not ordered by file path"
+					return
+				}
+			}
 			for _, fc := range jr {
 				for _, k := range fc.Classifications {
 					got = append(got, fmt.Sprintf("%s|%s|%d-%d|%q", filepath.Base(fc.Filepath), k.Name, k.StartLine, k.EndLine, k.Text))
